@@ -1058,7 +1058,7 @@ reg('C04', run_C04, ['Prop_C04.v'], BERULE + 'non-trivial = grammars with preced
     level_note=MODEL_NOTE)
 reg('C05', run_C05, ['Prop_C05.v'], BERULE + 'evaluations = cells looked up through the packed arrays + random matrices through PackTable/UnPackTable + packed vs -u parser runs; non-trivial = grammars with a non-error default, matrices with an empty leading column',
     technique='Coq theorem (first-fit row displacement with check vector is lossless for every matrix and row order) + every (state,symbol) lookup through the implementation\'s packed arrays vs its dense table + random matrices through PackTable/UnPackTable + packed vs -u parsers',
-    level_text="Proved in Coq for every matrix and every duplicate-free row order: lookup through the packed arrays returns the cell (C05_lookup_core, C05_lookup), unpacking the packed arrays gives back the matrix (C05_pack_roundtrip); for every table generate_tables emits no cell is 0 and the start-symbol column holds the error code (C05_conditions_hold), so its packed lookups equal its dense cells as soon as no goto column can land on a negative slot - one boolean condition on the offset vector (C05_packed_agrees_offsets, C05_packed_agrees) - and then the packed and dense parsers agree on every input (C08_variants). On every run every cell of every corpus grammar (incl. tables with more than 64 columns and more than 256 productions) is looked up through the implementation's own packed arrays (template Action() logic) and compared with GTable, the conditions of the theorem are evaluated on the implementation's arrays, random matrices go through utils.PackTable/UnPackTable, and packed vs -u generated parsers are compared on all inputs. C05_from_the_text: for every text, the packed lookups equal the matrix cells under the offset condition alone. C05_offsets_from_actions / C05_from_the_text_actions: the offset condition itself follows, for every matrix, from the two proved conditions once every row has a non-error cell in a terminal column (that cell, or the error code of column 0, differs from the row default and is therefore stored at offset + column >= 0 with column <= NTERMINALS), so from the bytes of the file the packed lookups equal the matrix under a statement about the matrix alone; that every state of an emitted table has such an action is not yet proved and the offset condition stays evaluated on the arrays of every run.",
+    level_text="Proved in Coq for every matrix and every duplicate-free row order: lookup through the packed arrays returns the cell (C05_lookup_core, C05_lookup), unpacking the packed arrays gives back the matrix (C05_pack_roundtrip); for every table generate_tables emits no cell is 0 and the start-symbol column holds the error code (C05_conditions_hold), so its packed lookups equal its dense cells as soon as no goto column can land on a negative slot - one boolean condition on the offset vector (C05_packed_agrees_offsets, C05_packed_agrees) - and then the packed and dense parsers agree on every input (C08_variants). On every run every cell of every corpus grammar (incl. tables with more than 64 columns and more than 256 productions) is looked up through the implementation's own packed arrays (template Action() logic) and compared with GTable, the conditions of the theorem are evaluated on the implementation's arrays, random matrices go through utils.PackTable/UnPackTable, and packed vs -u generated parsers are compared on all inputs. C05_from_the_text: for every text, the packed lookups equal the matrix cells under the offset condition alone. C05_offsets_from_actions / C05_from_the_text_actions: the offset condition itself follows, for every matrix, from the two proved conditions once every row has a non-error cell in a terminal column (that cell, or the error code of column 0, differs from the row default and is therefore stored at offset + column >= 0 with column <= NTERMINALS), so from the bytes of the file the packed lookups equal the matrix under a statement about the matrix alone; not every emitted table meets that hypothesis (%nonassoc can leave a state with error actions only and gotos - curated grammar all_error_row), so the offset condition stays evaluated on the arrays of every run.",
     level_note=MODEL_NOTE)
 reg('C06', run_C06, ['Prop_C06.v'], I6RULE + 'evaluations = rejected runs; non-trivial = distinct (conflict-free grammar, non-sentence) whose error position is compared with an Earley viable-prefix computation',
     technique='Coq theorems (no Crash / nil return under the table certificate; a token is shifted only if input-so-far plus that token begins a sentence: soundness of LR(1) items over access paths + parse trees on the stack + productivity) + outcome classification and fetch count of every rejected run of the real parsers vs Earley viable-prefix computation and the model',
